@@ -232,6 +232,22 @@ def eval_point(pt, R):
             R.check(ok2, 'class_peaks', dict(feats, form='real'), pt, pp, None, 'pmusic/pev (real data): the sinusoid does not dominate on the reported one-sided axis')
         except Exception as e:
             R.viol('class_peaks', dict(feats, exc=type(e).__name__), pt, repr(e), None, 'class raised inside its domain')
+    if kind == 'cx' and N == 33 and P >= K + 2 and not single and not pt.get('weak'):
+        # history on one object: evaluate with a wrong subspace size, correct the NSIG attribute, evaluate again
+        R.calls(3)
+        try:
+            cls = spectrum.pmusic if meth == 'music' else spectrum.pev
+            oh = cls(x, P, NSIG=K + 1, NFFT=nf)
+            oh()
+            oh.NSIG = K
+            oh()
+            fresh = cls(x, P, NSIG=K, NFFT=nf)
+            fresh()
+            a_, b_ = np.asarray(oh.psd), np.asarray(fresh.psd)
+            R.check(a_.shape == b_.shape and close(1.0 / a_, 1.0 / b_, 1e-9, 1e-12 * float(np.max(1.0 / b_))), 'class_history', feats, pt, a_, b_,
+                    'evaluating again after changing the NSIG attribute does not give the pseudo-spectrum of a fresh object with that NSIG')
+        except Exception as e:
+            R.viol('class_history', dict(feats, exc=type(e).__name__), pt, repr(e), None, 'class history raised')
     if kind == 'cx' and N in (2 * P, 33):
         R.calls()
         try:
